@@ -26,12 +26,17 @@ type Interp struct {
 	globalEnv                                                            *Env
 	evalFn                                                               *Object
 
-	events     []string
-	rd         *Renderer
-	steps      int64
-	fuel       int64
-	depth      int
-	decls      map[*Node]*declInfo
+	events []string
+	rd     *Renderer
+	steps  int64
+	fuel   int64
+	depth  int
+	decls  map[*Node]*declInfo
+	// template objects per site: a site is a tagged template node in one parse of its source; code run by eval is
+	// parsed anew by every eval call (epoch), program code once (epoch 0)
+	tmplSites  map[tmplSite]*Object
+	epoch      int // epoch of the code currently running
+	epochs     int // epochs handed out
 	evalActive int // > 0 while eval code, or a function created by eval code, is running
 }
 
@@ -39,7 +44,7 @@ const maxInterpDepth = 120
 
 // Interpret runs a Program and returns its outcome. fuel bounds the number of evaluation steps.
 func Interpret(p *Node, fuel int64) (out *Outcome) {
-	it := &Interp{fuel: fuel, decls: map[*Node]*declInfo{}}
+	it := &Interp{fuel: fuel, decls: map[*Node]*declInfo{}, tmplSites: map[tmplSite]*Object{}}
 	it.rd = &Renderer{ids: map[*Object]int{}, it: it}
 	out = &Outcome{}
 	defer func() {
@@ -345,6 +350,11 @@ func (it *Interp) setup() {
 	def("globalThis", g)
 }
 
+type tmplSite struct {
+	node  *Node
+	epoch int
+}
+
 type arrayIterState struct {
 	obj  *Object
 	i    int
@@ -422,7 +432,7 @@ func (it *Interp) newArray(elems []Value) *Object {
 func (it *Interp) makeFunction(node *Node, env *Env, strict bool, kind FuncKind, home *Object) *Object {
 	f := it.newObject(it.FunctionProto)
 	f.class = "Function"
-	f.fn = &FuncData{kind: kind, node: node, env: env, strict: strict || node.Has(FStrict), home: home, fromEval: it.evalActive > 0}
+	f.fn = &FuncData{kind: kind, node: node, env: env, strict: strict || node.Has(FStrict), home: home, fromEval: it.evalActive > 0, epoch: it.epoch}
 	n := 0
 	for _, p := range node.L {
 		if p.K == KRest || (p.K == KPatElem && p.B != nil) {
@@ -494,6 +504,11 @@ func (it *Interp) callFunction(f *Object, this Value, args []Value, newTarget *O
 	if fd.fromEval {
 		it.evalActive++
 		defer func() { it.evalActive-- }()
+	}
+	if fd.kind != fnNative {
+		saved := it.epoch
+		it.epoch = fd.epoch
+		defer func() { it.epoch = saved }()
 	}
 	if fd.kind == fnNative {
 		if fd.native == nil {
